@@ -46,6 +46,7 @@ def _kw(call: ast.Call, name: str, pos: Optional[int] = None) -> Optional[ast.AS
 def run(ch: Checker) -> None:
     prog = ch.prog
     ce = ConstEval(prog)
+    ch.rule('C11.11', 'the default receive buffer sizes cover a whole TLS record (16384 bytes), because every readiness event is answered by one recv() and nothing drains SSLSocket.pending()', 2)
     ch.rule('C11.1', 'HttpProxyPlugin.wrap_server: verify_mode is CERT_NONE only on paths with flags.insecure_tls_interception, CERT_REQUIRED otherwise; upstream.wrap receives '
                      'text_(self.request.host), self.flags.ca_file and that verify_mode', 1)
     ch.rule('C11.2', 'TcpServerConnection.wrap: context = ssl.create_default_context(SERVER_AUTH, cafile=<ca_file param>); ctx.verify_mode = <verify_mode param>; ctx.check_hostname is False '
@@ -332,6 +333,10 @@ def run(ch: Checker) -> None:
                         else:
                             bad = ('a DNS: alternative name is emitted for a name that parsed as an IP address: clients reject the certificate for an IP host', p.describe())
     ch.check(bad is None and ip_ok and dns_ok, 'C11.6', gec, 'SAN type', 'IP: for address literals, DNS: otherwise', bad[0] if bad else 'the SAN type does not depend on whether the name is an IP address (IP branch %s, DNS fallback %s)' % (ip_ok, dns_ok), witness=bad[1] if bad else None)
+
+    # ---------------- C11.11 receive buffers vs TLS records
+    from .common import recvbuf_tls_check
+    recvbuf_tls_check(ch, 'C11.11')
 
     # ---------------- C11.9
     from .common import tls_retry_check
